@@ -1236,3 +1236,253 @@ Proof.
     st_simpl. apply in_or_app. left. apply in_or_app. right. left. reflexivity.
   - st_simpl. apply in_or_app. right. left. reflexivity.
 Qed.
+
+(* ======================================================================================================== *)
+(* C09_param_order                                                                                            *)
+(* ======================================================================================================== *)
+(* self.types keeps the signature, in order, in front: fields only replace values or append new names *)
+Lemma dict_set_keys : forall {V} (k : pname) (v : V) d,
+  key_texts (dict_set k v d) = key_texts d ++ (if has_key (pn_text k) d then [] else [pn_text k]).
+Proof.
+  intros V k v d. induction d as [|[k0 v0] d IH]; cbn [dict_set key_texts map]; [reflexivity|].
+  unfold has_key. cbn [existsb fst]. destruct (text_eqb (pn_text k0) (pn_text k)) eqn:Ek; cbn [orb map fst].
+  - rewrite app_nil_r. reflexivity.
+  - unfold key_texts, has_key in IH. rewrite IH. reflexivity.
+Qed.
+
+Lemma types_keys_step : forall E k g st, exists extra,
+  key_texts (st_types (handle E k g st)) = key_texts (st_types st) ++ extra.
+Proof.
+  intros E k g st. pose proof (handle_effect E k g st) as HE.
+  destruct (effect E k g st) eqn:Ee; cbn [apply_upd] in HE; destruct HE as (HE & _); rewrite HE; st_simpl;
+    try (exists []; rewrite app_nil_r; reflexivity).
+  unfold effect in Ee.
+  destruct (lookup_handler (f_tag g) handler_table) as [[]|]; try discriminate;
+    try (destruct (fst (handle_param_name E k g st)); discriminate).
+  destruct (e_obj E).
+  - destruct (fst (handle_param_name E k g st)); [|discriminate]. inversion Ee; subst. eexists. apply dict_set_keys.
+  - destruct (f_arg g); [|discriminate]. inversion Ee; subst. eexists. apply dict_set_keys.
+  - destruct (f_arg g); [|discriminate]. inversion Ee; subst. eexists. apply dict_set_keys.
+  - discriminate.
+Qed.
+
+Lemma types_keys_all : forall E fs k st, exists extra,
+  key_texts (st_types (handle_all E k fs st)) = key_texts (st_types st) ++ extra.
+Proof.
+  intros E fs. induction fs as [|g fs IH]; intros k st; cbn [handle_all].
+  - exists []. rewrite app_nil_r. reflexivity.
+  - destruct (IH (S k) (handle E k g st)) as [x Hx]. destruct (types_keys_step E k g st) as [y Hy].
+    exists (y ++ x). rewrite Hx, Hy, app_assoc. reflexivity.
+Qed.
+
+Theorem param_order_signature_first : forall E fs,
+  is_function_obj E = true ->
+  exists extra, key_texts (st_types (handle_all E 0 fs (init_state E))) = sig_names E ++ extra.
+Proof.
+  intros E fs Hfun. destruct (types_keys_all E fs 0 (init_state E)) as [x Hx]. exists x. rewrite Hx. f_equal.
+  unfold init_state, is_function_obj, sig_names, key_texts in *. cbn [st_types].
+  destruct (e_obj E); try discriminate. rewrite map_map. reflexivity.
+Qed.
+
+(* values are stored under their own name *)
+Definition keys_match (d : list (pname * pdesc)) : Prop :=
+  Forall (fun e => pn_text (fst e) = pn_text (pd_name (snd e))) d.
+
+Lemma dict_set_keys_match : forall (p : pdesc) d, keys_match d -> keys_match (dict_set (pd_name p) p d).
+Proof.
+  intros p d H. induction H as [|[k0 v0] d Hk Hd IH]; cbn [dict_set].
+  - constructor; [reflexivity | constructor].
+  - destruct (text_eqb (pn_text k0) (pn_text (pd_name p))) eqn:Ek.
+    + constructor; [cbn [fst snd]; apply text_eqb_eq; exact Ek | exact Hd].
+    + constructor; [exact Hk | exact IH].
+Qed.
+
+Lemma params_dict_keys_match : forall ds, keys_match (params_dict ds).
+Proof.
+  intros ds. unfold params_dict. assert (G : forall d, keys_match d -> keys_match (fold_left (fun d p => dict_set (pd_name p) p d) ds d)).
+  { induction ds as [|p ds IH]; intros d H; cbn [fold_left]; [exact H | apply IH; apply dict_set_keys_match; exact H]. }
+  apply G. constructor.
+Qed.
+
+Lemma dict_pop_shape : forall k (d : list (pname * pdesc)) v d',
+  dict_pop k d = Some (v, d') ->
+  exists l1 k0 l2, d = l1 ++ (k0, v) :: l2 /\ d' = l1 ++ l2 /\ pn_text k0 = k /\ Forall (fun e => pn_text (fst e) <> k) l1.
+Proof.
+  intros k d. induction d as [|[k0 v0] d IH]; intros v d' H; cbn [dict_pop] in H; [discriminate|].
+  destruct (text_eqb (pn_text k0) k) eqn:Ek.
+  - inversion H; subst. exists [], k0. eexists. repeat split; [apply text_eqb_eq; exact Ek | constructor].
+  - destruct (dict_pop k d) as [[v1 r]|] eqn:Ep; [|discriminate]. inversion H; subst.
+    destruct (IH _ _ eq_refl) as (l1 & k1 & l2 & H1 & H2 & H3 & H4).
+    exists ((k0, v0) :: l1), k1, l2. subst. repeat split. constructor; [|exact H4].
+    cbn [fst]. intro Heq. rewrite Heq in Ek. rewrite text_eqb_refl in Ek. discriminate.
+Qed.
+
+Definition kept_types (E : env) (types : list (pname * option (tyref * origin))) (params : list (pname * pdesc))
+  : list (pname * option (tyref * origin)) :=
+  match types with
+  | e :: t => if strip_first E (fst e) && negb (has_key (pn_text (fst e)) params) then t else types
+  | [] => []
+  end.
+
+Lemma has_key_pop_none : forall n (d : list (pname * pdesc)), dict_pop n d = None -> has_key n d = false.
+Proof.
+  intros n d. induction d as [|[k0 v0] d IH]; intro H; [reflexivity|]. cbn [dict_pop] in H. unfold has_key. cbn [existsb fst].
+  destruct (text_eqb (pn_text k0) n); [discriminate|]. cbn [orb].
+  destruct (dict_pop n d) as [[v r]|]; [discriminate|]. apply IH. reflexivity.
+Qed.
+
+Lemma subseq_In : forall {X} (a b : list X) x, subseq a b -> In x a -> In x b.
+Proof.
+  intros X a b x H. induction H; intro Hin; [contradiction | | right; auto].
+  destruct Hin as [-> | Hin]; [left; reflexivity | right; auto].
+Qed.
+
+Lemma subseq_refl : forall {X} (l : list X), subseq l l.
+Proof. induction l; constructor; assumption. Qed.
+
+Lemma subseq_app_skip : forall {X} (a l1 l2 : list X) x, subseq a (l1 ++ l2) -> subseq a (l1 ++ x :: l2).
+Proof.
+  intros X a l1. revert a. induction l1 as [|y l1 IH]; intros a l2 x H; cbn [app] in *.
+  - constructor. exact H.
+  - inversion H; subst; [constructor | constructor; apply IH; assumption | apply subseq_skip; apply IH; assumption].
+Qed.
+
+(* one row per entry of self.types, in that order (minus an undocumented leading self/cls); what is left of the
+   documented names keeps its order and is exactly the names that are not in self.types *)
+Lemma rt_loop_rows : forall E types idx params any new lft ai,
+  rt_loop E idx types params any = (new, lft, ai) -> keys_match params -> NoDup (key_texts params) ->
+  row_names new = key_texts (if Nat.eqb idx 0 then kept_types E types params else types) /\
+  subseq lft params /\
+  (forall e, In e lft -> existsb (text_eqb (pn_text (fst e))) (key_texts types) = false) /\
+  (forall e, In e params -> existsb (text_eqb (pn_text (fst e))) (key_texts types) = false -> In e lft).
+Proof.
+  intros E types. induction types as [|[nm pty] types IH]; intros idx params any new lft ai H Hk Hnd; cbn [rt_loop] in H.
+  - inversion H; subst. split; [destruct (Nat.eqb idx 0); reflexivity|]. split; [apply subseq_refl|]. split; [reflexivity | auto].
+  - destruct (dict_pop (pn_text nm) params) as [[p params']|] eqn:Ep.
+    + destruct (rt_loop E (S idx) types params' any) as [[new1 lft1] ai1] eqn:Er. inversion H; subst.
+      destruct (dict_pop_shape _ _ _ _ Ep) as (l1 & k0 & l2 & H1 & H2 & H3 & H4). subst params params'.
+      assert (Hk' : keys_match (l1 ++ l2)).
+      { unfold keys_match in *. apply Forall_app in Hk. destruct Hk as [Ha Hb]. inversion Hb; subst. apply Forall_app. split; assumption. }
+      assert (Hnd' : NoDup (key_texts (l1 ++ l2)) /\ ~ In (pn_text nm) (key_texts (l1 ++ l2))).
+      { unfold key_texts in *. rewrite map_app in *. cbn [map fst] in Hnd. rewrite H3 in Hnd.
+        split; [apply NoDup_remove_1 in Hnd; exact Hnd | apply NoDup_remove_2 in Hnd; exact Hnd]. }
+      destruct Hnd' as [Hnd1 Hnd2].
+      destruct (IH _ _ _ _ _ _ Er Hk' Hnd1) as (I1 & I2 & I3 & I4). cbn [Nat.eqb] in I1.
+      assert (Hname : pn_text (pd_name p) = pn_text nm).
+      { unfold keys_match in Hk. apply Forall_app in Hk. destruct Hk as [_ Hb]. inversion Hb; subst. cbn [fst snd] in *. congruence. }
+      split; [|split; [|split]].
+      * assert (Hkept : (if Nat.eqb idx 0 then kept_types E ((nm, pty) :: types) (l1 ++ (k0, p) :: l2) else (nm, pty) :: types)
+                        = (nm, pty) :: types).
+        { destruct (Nat.eqb idx 0); [|reflexivity]. unfold kept_types. cbn [fst].
+          replace (has_key (pn_text nm) (l1 ++ (k0, p) :: l2)) with true; [rewrite andb_false_r; reflexivity|].
+          symmetry. unfold has_key. rewrite existsb_app. cbn [existsb fst]. rewrite H3, text_eqb_refl. rewrite orb_true_r. reflexivity. }
+        rewrite Hkept. unfold row_names, key_texts in *. cbn [map pd_name fst]. rewrite I1, Hname. reflexivity.
+      * apply subseq_app_skip. exact I2.
+      * intros e He. cbn [key_texts map fst existsb]. fold (key_texts types). rewrite (I3 e He), orb_false_r.
+        destruct (text_eqb (pn_text (fst e)) (pn_text nm)) eqn:Ee; [|reflexivity].
+        exfalso. apply text_eqb_eq in Ee. apply Hnd2. rewrite <- Ee.
+        unfold key_texts. apply in_map_iff. exists e. split; [reflexivity | apply (subseq_In _ _ _ I2 He)].
+      * intros e He Hne. cbn [key_texts map fst existsb] in Hne. fold (key_texts types) in Hne.
+        apply orb_false_iff in Hne. destruct Hne as [Hne1 Hne2]. apply I4; [|exact Hne2].
+        apply in_app_or in He. apply in_or_app. destruct He as [He | [He | He]]; [left; exact He | | right; exact He].
+        subst e. cbn [fst] in Hne1. rewrite H3, text_eqb_refl in Hne1. discriminate.
+    + pose proof (has_key_pop_none _ _ Ep) as Hnk.
+      assert (Hnone : forall e, In e params -> text_eqb (pn_text (fst e)) (pn_text nm) = false).
+      { intros e He. destruct (text_eqb (pn_text (fst e)) (pn_text nm)) eqn:Ee; [|reflexivity].
+        exfalso. destruct e as [ke ve]. apply (dict_pop_none _ _ Ep ke ve He). apply text_eqb_eq. exact Ee. }
+      destruct (Nat.eqb idx 0 && strip_first E nm) eqn:Es.
+      * destruct (IH _ _ _ _ _ _ H Hk Hnd) as (I1 & I2 & I3 & I4). cbn [Nat.eqb] in I1.
+        apply andb_true_iff in Es. destruct Es as [Es1 Es2]. rewrite Es1.
+        split; [|split; [exact I2 | split]].
+        -- unfold kept_types. cbn [fst]. rewrite Es2, Hnk. cbn [negb andb]. exact I1.
+        -- intros e He. cbn [key_texts map fst existsb]. fold (key_texts types). rewrite (I3 e He), orb_false_r.
+           apply Hnone. apply (subseq_In _ _ _ I2 He).
+        -- intros e He Hne. cbn [key_texts map fst existsb] in Hne. fold (key_texts types) in Hne.
+           apply orb_false_iff in Hne. destruct Hne as [_ Hne2]. apply I4; assumption.
+      * destruct (rt_loop E (S idx) types params _) as [[new1 lft1] ai1] eqn:Er. inversion H; subst.
+        destruct (IH _ _ _ _ _ _ Er Hk Hnd) as (I1 & I2 & I3 & I4). cbn [Nat.eqb] in I1.
+        split; [|split; [exact I2 | split]].
+        -- assert (Hkept : (if Nat.eqb idx 0 then kept_types E ((nm, pty) :: types) params else (nm, pty) :: types)
+                           = (nm, pty) :: types).
+           { destruct (Nat.eqb idx 0) eqn:E0; [|reflexivity]. unfold kept_types. cbn [fst]. cbn [andb] in Es. rewrite Es. reflexivity. }
+           rewrite Hkept. unfold row_names, key_texts in *. cbn [map pd_name fst]. rewrite I1. reflexivity.
+        -- intros e He. cbn [key_texts map fst existsb]. fold (key_texts types). rewrite (I3 e He), orb_false_r.
+           apply Hnone. apply (subseq_In _ _ _ I2 He).
+        -- intros e He Hne. cbn [key_texts map fst existsb] in Hne. fold (key_texts types) in Hne.
+           apply orb_false_iff in Hne. destruct Hne as [_ Hne2]. apply I4; assumption.
+Qed.
+
+Lemma NoDup_app_snoc : forall {X} (l : list X) x, NoDup l -> ~ In x l -> NoDup (l ++ [x]).
+Proof.
+  intros X l x H Hx. induction H as [|y l Hy Hl IH]; cbn [app].
+  - constructor; [intros [] | constructor].
+  - constructor.
+    + intro Hin. apply in_app_or in Hin. destruct Hin as [Hin | [Hin | []]]; [contradiction | subst; apply Hx; left; reflexivity].
+    + apply IH. intro Hin. apply Hx. right. exact Hin.
+Qed.
+
+(* the keys of params = {param.name: param ...} are pairwise different *)
+Lemma dict_set_nodup : forall (k : pname) (v : pdesc) d, NoDup (key_texts d) -> NoDup (key_texts (dict_set k v d)).
+Proof.
+  intros k v d H. rewrite dict_set_keys. destruct (has_key (pn_text k) d) eqn:Eh; [rewrite app_nil_r; exact H|].
+  apply NoDup_app_snoc; [exact H|].
+  intro Hin. unfold key_texts in Hin. apply in_map_iff in Hin. destruct Hin as (e & He1 & He2).
+  unfold has_key in Eh. rewrite <- not_true_iff_false in Eh. apply Eh. apply existsb_exists. exists e. split; [exact He2|].
+  rewrite He1. apply text_eqb_refl.
+Qed.
+
+Lemma params_dict_nodup : forall ds, NoDup (key_texts (params_dict ds)).
+Proof.
+  intros ds. unfold params_dict.
+  assert (G : forall d, NoDup (key_texts d) -> NoDup (key_texts (fold_left (fun d p => dict_set (pd_name p) p d) ds d))).
+  { induction ds as [|p ds IH]; intros d H; cbn [fold_left]; [exact H | apply IH; apply dict_set_nodup; exact H]. }
+  apply G. constructor.
+Qed.
+
+(* resolve_types: the rows, in order.  `descs` is the list before the **kwargs shuffle. *)
+Theorem param_order_rows : forall E st,
+  let params := params_dict (st_pdescs st) in
+  forall new lft ai,
+    rt_loop E 0 (st_types st) params (match params with [] => false | _ => true end) = (new, lft, ai) ->
+    row_names new = key_texts (kept_types E (st_types st) params) /\
+    subseq lft params /\
+    (forall e, In e params -> (In e lft <-> existsb (text_eqb (pn_text (fst e))) (key_texts (st_types st)) = false)).
+Proof.
+  intros E st params new lft ai H.
+  destruct (rt_loop_rows E _ _ _ _ _ _ _ H (params_dict_keys_match _) (params_dict_nodup _)) as (H1 & H2 & H3 & H4).
+  cbn [Nat.eqb] in H1. split; [exact H1|]. split; [exact H2|].
+  intros e He. split; [apply H3 | apply H4; exact He].
+Qed.
+
+(* ... and the **kwargs shuffle: the last row whose name is the KeywordArgument is moved to the end, or left out when it
+   is undocumented and explicit keywords are documented; every other row stays where it is *)
+Theorem param_order_kwargs : forall E st,
+  exists descs,
+    (st_pdescs (resolve_types E st) = descs \/
+     exists k, In k descs /\ is_kw_name k = true /\
+               (st_pdescs (resolve_types E st) = remove_first k descs ++ [k] \/
+                (pdesc_documented k = false /\ st_pdescs (resolve_types E st) = remove_first k descs))) /\
+    (descs = st_pdescs st \/
+     exists new lft ai, rt_loop E 0 (st_types st) (params_dict (st_pdescs st))
+                                (match params_dict (st_pdescs st) with [] => false | _ => true end) = (new, lft, ai) /\
+                        descs = new ++ map snd lft).
+Proof.
+  intros E st. unfold resolve_types.
+  destruct (rt_loop E 0 (st_types st) (params_dict (st_pdescs st)) _) as [[new lft] ai] eqn:Er.
+  exists (if ai then new ++ map snd lft else st_pdescs st). split.
+  - set (descs := if ai then new ++ map snd lft else st_pdescs st).
+    destruct (fold_left (fun acc p => if is_kw_name p then Some p else acc) descs None) as [k|] eqn:Ek; st_simpl; [|left; reflexivity].
+    right. exists k.
+    assert (Hk : In k descs /\ is_kw_name k = true).
+    { clear - Ek. assert (G : forall l acc, fold_left (fun acc p => if is_kw_name p then Some p else acc) l acc = Some k ->
+                                    (In k l /\ is_kw_name k = true) \/ acc = Some k).
+      { induction l as [|p l IH]; intros acc H; cbn [fold_left] in H; [right; exact H|].
+        destruct (IH _ H) as [[H1 H2] | H1]; [left; split; [right; exact H1 | exact H2]|].
+        destruct (is_kw_name p) eqn:Ep; [inversion H1; subst; left; split; [left; reflexivity | exact Ep] | right; exact H1]. }
+      destruct (G _ _ Ek) as [H | H]; [exact H | discriminate]. }
+    destruct Hk as [Hk1 Hk2]. split; [exact Hk1|]. split; [exact Hk2|].
+    destruct (negb (existsb (fun p => negb (is_kw_name p) && pd_kw p) descs) || pdesc_documented k) eqn:Ec.
+    + left. reflexivity.
+    + right. apply orb_false_iff in Ec. destruct Ec as [_ Ec]. split; [exact Ec | reflexivity].
+  - destruct ai; [right; exists new, lft, true; split; reflexivity | left; reflexivity].
+Qed.
